@@ -54,7 +54,9 @@ func (mc multiCore) With(fields []Field) Core {
 }
 
 func (mc multiCore) Level() Level {
-	minLvl := _maxLevel // mc is never empty
+	// Start above every valid level so that a tee whose cores are all
+	// disabled reports InvalidLevel, like LevelOf does for a single core.
+	minLvl := InvalidLevel
 	for i := range mc {
 		if lvl := LevelOf(mc[i]); lvl < minLvl {
 			minLvl = lvl
